@@ -255,7 +255,7 @@ func (w *azWorld) operator() {
 }
 
 var azNonceKinds = []string{"own", "own", "own", "other-node", "fresh32", "token-unused", "token-used", "token-expired", "token-never-issued", "garbage", "token-from-storage-id"}
-var azWrappedKinds = []string{"none", "none", "none", "match", "other-nonce", "other-key", "foreign-wrapper", "garbage"}
+var azWrappedKinds = []string{"none", "none", "none", "match", "other-nonce", "other-key", "foreign-wrapper", "garbage", "storage-wrapper"}
 var azRewrappedKinds = []string{"none", "none", "none", "none", "match", "mismatch-nonce", "mismatch-key", "by-removed", "wrong-keyid", "garbage", "reflected-server-answer"}
 
 type azFetch struct {
@@ -378,6 +378,15 @@ func (w *azWorld) fetch(step int) {
 		info.WrappedRegistrationInfo = world.SealRegInfo(world.NewAead("foreign"), &types.WrappingRegistrationFlowInfo{CertificatePublicKeyPkix: keys.Pkix, Nonce: nonce})
 	case "garbage":
 		info.WrappedRegistrationInfo = world.RandBytes(40)
+	case "storage-wrapper":
+		// matching info sealed with the key the server uses for its storage: that key is not the registration
+		// wrapper, whether or not one is configured
+		if w.s.SW != nil {
+			info.WrappedRegistrationInfo = world.SealRegInfo(w.s.SW, &types.WrappingRegistrationFlowInfo{CertificatePublicKeyPkix: keys.Pkix, Nonce: nonce})
+		} else {
+			f.Wrapped = "foreign-wrapper"
+			info.WrappedRegistrationInfo = world.SealRegInfo(world.NewAead("foreign"), &types.WrappingRegistrationFlowInfo{CertificatePublicKeyPkix: keys.Pkix, Nonce: nonce})
+		}
 	}
 	// --- the bundle's unsealed flow-info field (normally filled in by the server after unsealing) ---------
 	switch w.rng.Intn(6) {
